@@ -105,7 +105,7 @@ def helper_args(helpers):
 def order_key(v):
     a = v.get("args") or []
     try:
-        n = {"short": 0, "natural": 0, "max": 10 ** 6, "first": 0, "middle": 1, "last-dir": 2, "file": 3, "states": 0}.get(a[3])
+        n = {"short": 0, "natural": 0, "max": 10 ** 6, "first": 0, "middle": 1, "last-dir": 2, "file": 3, "states": 0, "all": 10 ** 6}.get(a[3])
         return (v["sig"], a[1], int(a[2]), int(a[3]) if n is None else n)
     except Exception:
         return (v["sig"], " ".join(a), 0, 0)
@@ -141,7 +141,7 @@ def run(ctx):
     ctx.samples = []
     esamples = sorted(v for v in ctx.samples if v.startswith("[endianness configuration"))[:3]
     ctx.samples = []
-    for g in "ABCDE":
+    for g in "ABCDEF":
         ctx.samples += [v for v in allsamples if v.startswith("[grid %s," % g)][:2]
     ctx.samples += esamples[:12 - len(ctx.samples)]
 
@@ -155,14 +155,21 @@ def run(ctx):
         "quick: depth {1,2,3,8,40} x length {short, 1000, 1022, 1023, 1024, 1025, 2048, 4000, 4095, max-for-depth}; "
         "thorough: depth {1,2,3,4,5,8,16,17,40,100,1000} x length {short, 255..257, 511..513, 1000, every 1016..1032, 2047..2049, 3000, 4000, 4093..4095, max-for-depth} "
         "plus grid B = EVERY total length from the shortest creatable to PATH_MAX-1 (4095) at depth 17 x {plain, utf8, highbytes} x {direct, relative, symlink to the file}. "
-        "Grid C = 34 names that look special to path-handling code but are ordinary bytes (ending in / equal to / containing ' (deleted)', backslashes, "
+        "Grid C = 55 names that look special to path-handling code but are ordinary bytes (ending in / equal to / containing ' (deleted)', backslashes, "
         "trailing dot(s) or blank, leading blank, single characters incl. blank, '-', backslash, '~', 0xff, leading '-', %% $ * ? quotes newline tab, only "
-        "non-ASCII bytes) x slot {program name, its directory, a directory higher up%s} x %s x invocation %s. "
+        "non-ASCII bytes; round 5: percent-encoded '..' '/' blank NUL, ~user, a name equal to another component of the same path ('bin', 'prog'), .exe / .app "
+        "suffixes, 'file:', ':' and ';' inside, Unicode look-alikes of '..' (fullwidth, one-dot leaders, overlong UTF-8), NFD next to NFC, Windows device names, "
+        "two blanks, [a-z], {a,b}) x slot {program name, its directory, a directory higher up%s} x %s x invocation %s. "
         "Grid D = 3..6-byte names with ONE 255-byte name as {first, middle, last directory, program name} x depth %s x flavour %s x invocation %s. "
         "Grid E = process state left behind by earlier calls {fresh; errno assigned 0, ENOENT, EINTR, ERANGE, ENAMETOOLONG, EINVAL, ENOMEM, EACCES, ELOOP; the same eight "
         "non-zero values left by a really failing system call; executable_path() already called twice (results must be identical); cwd = / ; cwd = a deleted "
         "directory; umask 0777; stdin closed} (23 states, entered immediately before each call) x install path %s x invocation %s; oracle unchanged, nothing is "
         "required of errno afterwards. "
+        "Grid F = the DOT FAMILY of whole path components (a canonical path has no '.' or '..' components, so whole names are the only place dots occur): 36 names "
+        "{.hidden, .a, ..data, ..a, ..<timestamp>.<digits>, three / four / five dots, ...a, dot(s) followed or preceded by a blank, '. .', '.. ..', dot(s) followed by a "
+        "backslash, ..\\x, .. + 0xff, . + UTF-8, .. + newline, '.. (deleted)', '..' + 253 letters (NAME_MAX), 255 dots, a.b, a..b, a...b, v1.2.3, a., a.., name., name.., "
+        "name..., .a., ..a.., .a..b.} x position {EVERY one of the depth+1 components (each directory level and the program name), all components at once} among "
+        "ordinary 3..6-byte names x depth %s x invocation %s%s; oracle unchanged (exact install path, grandparent + '/', sanitizer clean). "
         "The requested length is spread evenly over the depth+1 names (each 1..255 bytes); (depth, length) cells that no such split reaches are counted in "
         "cells_not_creatable / cases_not_creatable and are not part of the space. "
         "endianness() is in addition decided per BUILD CONFIGURATION (endian_probe.cpp, one translation unit each): what is seen before xtl/xplatform.hpp "
@@ -175,9 +182,11 @@ def run(ctx):
         % ((", symlink to a symlink to the file" if thorough else "", [h[0] for h in helpers]) +
            ((", all three", "total length {natural (depth 4 between opt/local/app/bin/prog), 1023, 1024, 2048, 4095 (depth 17, plain padding)}", "as grid A",
              "{3,4,8,17,40,100}", "all 6", "as grid A",
-             "{short depth 2, one 255-byte name among short ones, total 1024 at depth 8, total 4095 at depth 40}", "{direct, relative, symlink to the file}") if thorough else
+             "{short depth 2, one 255-byte name among short ones, total 1024 at depth 8, total 4095 at depth 40}", "{direct, relative, symlink to the file}",
+             "{1,2,3,4,5,8,17}", "as grid A", ", plus every position at depth 17 with the other names padded (plain) to a total length of {1024, 4095}") if thorough else
             ("", "natural length (depth 4 between opt/local/app/bin/prog)", "{direct, symlink to the file}", "{3,8}", "{plain, spaces, highbytes}",
-             "{direct, symlink to the file}", "{short depth 2, one 255-byte name among short ones, total 1024 at depth 8}", "{direct}"))))
+             "{direct, symlink to the file}", "{short depth 2, one 255-byte name among short ones, total 1024 at depth 8}", "{direct}",
+             "{1,4}", "{direct, symlink to the file}", ""))))
     ctx.assumptions += [
         "endianness configurations only use macro sets that real platforms define consistently with a little-endian target (both constants + the selector); a lone 'this target is big endian' flag (__BIG_ENDIAN__, __ARMEB__, ...) is never defined: that would misdescribe the target and is out of scope",
         "the oracle is the path the driver created (canonical scratch root + the names it generated); it is never read back from the program under test",
@@ -187,6 +196,8 @@ def run(ctx):
         "through a symlink the expected answer is the canonical path of the real file (what the property's observable, realpath(/proc/self/exe), denotes)",
         "AddressSanitizer (recover mode, stack redzones) is the observer for 'without reading or writing outside its internal buffer'; an access that stays inside a redzone-free neighbouring object of the same frame would not be seen",
         "name lengths inside one path are uniform (+-1) in grids A/B; grid D adds exactly one 255-byte name among short ones; other length mixtures are not enumerated",
+        "the property quantifies over install paths of a program: every evaluation is a process started from an installed file that stays where it is; renaming or moving the running binary (or one of its parent directories) between two calls is a relocation of a running process, not an install path, and is not enumerated (repeated calls without relocation are: grid E state called-before)",
+        "grids C and F put one special name (or the same special name everywhere) into a path of otherwise ordinary names; paths mixing two different special names are not enumerated",
     ]
     ctx.note("prefix_path() failures on a case where executable_path() itself failed are folded into the executable_path violation (same defect), "
              "they are counted in prefix_failures_folded_into_executable_path_failure")
